@@ -132,7 +132,9 @@ func c09Stress(w *core.Worker, i int) {
 			wantLog[fmt.Sprintf("%d,%d", op.client, op.seq)] = true
 		}
 	}
-	rep := func(sig, what string) { w.Violation(sig, what, c09Replay{Kind: "stress", Detail: what + " delay=" + delay}) }
+	rep := func(sig, what string) {
+		w.Violation(sig, what, c09Replay{Kind: "stress", Detail: what + " delay=" + delay})
+	}
 	if len(lines) == 0 || lines[0] != fmt.Sprintf("%d,%d", committed, committed) {
 		rep("stress:conservation", fmt.Sprintf("final counter row is %q but %d increment transactions committed (lost or phantom update)", firstOr(lines), committed))
 	}
@@ -250,18 +252,18 @@ func firstOr(l []string) string {
 // ---- (b) systematic schedules under a step controller ----------------------------
 
 type schedRole struct {
-	name    string
-	prog    string
-	kind    string // W Wfu Wrb R
-	cmd     *exec.Cmd
-	goW     *os.File
-	state   int // 0 running 1 parked 2 exited
-	point   string
-	code    int
-	stdout  *strings.Builder
-	holds   map[string]byte
-	steps   int
-	silent  bool // running but blocked outside any hook (e.g. spinning on flock): not waited for
+	name   string
+	prog   string
+	kind   string // W Wfu Wrb R
+	cmd    *exec.Cmd
+	goW    *os.File
+	state  int // 0 running 1 parked 2 exited
+	point  string
+	code   int
+	stdout *strings.Builder
+	holds  map[string]byte
+	steps  int
+	silent bool // running but blocked outside any hook (e.g. spinning on flock): not waited for
 }
 
 type schedEvent struct {
